@@ -476,11 +476,12 @@ def pss_round(ctx, L, ks, hname, slcls, mgfkind, full, rand_path="rand_func"):
                               em_signed=pow(int.from_bytes(sig, "big"), e, n).to_bytes(k, "big").hex())):
         ctx.count("byte_equal:" + scheme)
         ctx.count("tape_predicted:" + scheme)
-    again, _ = do_sign(h)
-    ctx.count("repeat_checks:" + scheme)
-    ctx.check(again == ("ok", sig), "repeat:%s:sign-differs" % scheme,
-              "signing the same hash object again under the same random bytes gave a different result",
-              lambda: dict(base(), first=sig.hex(), again=repr(again[1])[:300]))
+    if rand_path == "rand_func" or sl == 0:     # (default source: which draw becomes the salt is not specified)
+        again, _ = do_sign(h)
+        ctx.count("repeat_checks:" + scheme)
+        ctx.check(again == ("ok", sig), "repeat:%s:sign-differs" % scheme,
+                  "signing the same hash object again under the same random bytes gave a different result",
+                  lambda: dict(base(), first=sig.hex(), again=repr(again[1])[:300]))
 
     keys = {0: (ks.pub, n, e), 1: (ks.pub2, ks.kd2["n"], ks.kd2["e"]), 2: (ks.key, n, e)}
 
